@@ -1,9 +1,10 @@
 import BipVerif.Driver.Codec
 import BipVerif.Driver.Bip32
 import BipVerif.Driver.Mnemonic
+import BipVerif.Driver.Addr
 open BipVerif.Driver
 
-def allOps : List (String × Op) := codecOps ++ bip32Ops ++ mnemonicOps
+def allOps : List (String × Op) := codecOps ++ bip32Ops ++ mnemonicOps ++ addrOps
 
 def handle (line : String) : String :=
   match (line.trimAscii.toString.splitOn " ").filter (· ≠ "") with
